@@ -333,8 +333,12 @@ class Verdicts:
         self.viol = []      # (key, replay_path, text)
         self.known_hits = {}
 
-    def add(self, key, text, replay_obj):
-        """key: stable identifier of the failing input/call-site as produced by the spec/harness."""
+    def add(self, key, text, replay_obj, src=None):
+        """key: stable identifier of the failing input/call-site as produced by the spec/harness.
+        src: path of the trace (shard) the rejected event came from; its producing harness command is stored so
+        that `bin/check --replay` can re-execute the same calls on the current tree."""
+        if src is not None and isinstance(replay_obj, dict) and source_of(src):
+            replay_obj = dict(replay_obj, harness_args=source_of(src))
         for k in self.known:
             if key == k or key.startswith(k + "/") or re.fullmatch(k.replace("*", ".*"), key):
                 self.known_hits.setdefault(k, 0)
@@ -361,10 +365,22 @@ class Verdicts:
         return 1 if self.viol else 0
 
 
+SOURCES = {}      # trace path -> harness arguments that produced it (so that a replay can re-execute the calls)
+
+
+def source_of(path):
+    """harness arguments that produced the trace a shard was split from (plumbing)"""
+    base = re.sub(r"\.s\.\d+\.ndjson$", "", path)
+    return SOURCES.get(base, SOURCES.get(path))
+
+
 def record(V, args, timeout=3600):
     """run a harness recording; a hang of the code under test becomes a reported violation. Returns True if a trace was written."""
     try:
         run_harness(args, timeout=timeout)
+        for a in args:
+            if str(a).endswith(".ndjson"):
+                SOURCES[str(a)] = [str(x) for x in args]
         return True
     except HarnessHang as h:
         V.add("hang/%s/%s" % (args[0], args[1]), "a call into the crate did not return within the watchdog limit: %s" % h.info,
